@@ -806,8 +806,38 @@ def discharge(hyps, goal, budget=20.0, skolems=(), want_model=True):
                 if r_ in ('sat', 'unsat'): return r_
         return 'unknown'
 
-    def failed_or(backend, model, insts_):
+    def confirm_split(ctx, zmodel, insts_):
+        """the whole set was too hard to re-check: the model found for the cone of influence extends to the whole set if the part
+        that was dropped is satisfiable under the model's integer assignment and shares no other symbol with the cone"""
+        if ctx is None: return 'unknown'
+        kept_ids = set(f.get_id() for f in ctx['kept'])
+        d1 = [f for f in ctx['rest'] + ctx['cong'] if f.get_id() not in kept_ids]
+        allh_ids = set(h.get_id() for h in ctx['allh'])
+        d0 = [h for h in list(plain) + list(insts_) if h.get_id() not in allh_ids]
+        if not d1 and not d0: return 'sat'
+        cone_syms = set()
+        for f in ctx['kept'] + [ctx['gq']]: cone_syms |= real_syms(f)
+        for f in d1:
+            if real_syms(f) & cone_syms: return 'unknown'
+        cone0 = set()
+        for h in ctx['allh']: cone0 |= nonint_syms(h)
+        for h in d0:
+            if nonint_syms(h) & cone0: return 'unknown'
+        sub = []
+        if zmodel is not None:
+            for d_ in zmodel.decls():
+                if d_.arity() == 0 and d_.range().kind() == z3.Z3_INT_SORT:
+                    sub.append((d_(), zmodel[d_]))
+        s_ = z3.Solver()
+        for f in d1 + d0 + ctx['int_h']:
+            s_.add(z3.substitute(f, *sub) if sub else f)
+        r_, dt_ = _check(s_, 5000)
+        log.append(('confirm:dropped-part', r_, round(dt_, 3)))
+        return 'sat' if r_ == 'sat' else 'unknown'
+
+    def failed_or(backend, model, insts_, ctx=None, zmodel=None):
         c = confirm(insts_)
+        if c == 'unknown': c = confirm_split(ctx, zmodel, insts_)
         if c == 'sat': return done('failed', backend, model)
         if c == 'unsat': return done('proved', backend + '+infeasible-path')
         return None
@@ -836,6 +866,7 @@ def discharge(hyps, goal, budget=20.0, skolems=(), want_model=True):
         if el.ok:
             cong = el.congruence()
             kept = real_relevant(rest + cong, gq)
+            bctx = {'kept': kept, 'rest': rest, 'cong': cong, 'allh': allh, 'gq': gq, 'int_h': int_h}
             core = [f for f in (z3.simplify(f) for f in kept + [gq]) if not z3.is_true(f)]
             ints = [f for f in (z3.simplify(f) for f in int_h) if not z3.is_true(f)]
             verdict_b1 = None
@@ -890,7 +921,7 @@ def discharge(hyps, goal, budget=20.0, skolems=(), want_model=True):
                 verdict_b1 = r
                 has_int = any(c.sort().kind() == z3.Z3_INT_SORT for f in fs for c in free_consts(f).values() if isinstance(c, z3.ExprRef))
                 if r == 'sat' and not has_int and last:
-                    v = failed_or('z3-nlsat', model_summary(s.model()) if want_model else None, insts)
+                    v = failed_or('z3-nlsat', model_summary(s.model()) if want_model else None, insts, bctx, None)
                     if v is not None: return v
                 if not has_int: break
             # B2 (short): the default solver often decides mixed queries at once
@@ -900,7 +931,7 @@ def discharge(hyps, goal, budget=20.0, skolems=(), want_model=True):
             log.append(('B2s:z3-smt-qf', r, round(dt, 3)))
             if r == 'unsat': return done('proved', 'z3-smt-qf')
             if r == 'sat' and last:
-                v = failed_or('z3-smt-qf', model_summary(s.model()) if want_model else None, insts)
+                v = failed_or('z3-smt-qf', model_summary(s.model()) if want_model else None, insts, bctx, s.model())
                 if v is not None: return v
             # B1b: exact combination (nlsat for the reals, LIA for the index atoms)
             if verdict_b1 != 'unsat':
@@ -917,7 +948,7 @@ def discharge(hyps, goal, budget=20.0, skolems=(), want_model=True):
             log.append(('B2:z3-smt-qf', r, round(dt, 3)))
             if r == 'unsat': return done('proved', 'z3-smt-qf')
             if r == 'sat' and last:
-                v = failed_or('z3-smt-qf', model_summary(s.model()) if want_model else None, insts)
+                v = failed_or('z3-smt-qf', model_summary(s.model()) if want_model else None, insts, bctx, s.model())
                 if v is not None: return v
         else:
             log.append(('B:elim', 'not-applicable', 0))
